@@ -117,6 +117,17 @@ class StubsFft(StubsLib):
         })
         np_ns.attrs["nditer"] = Stub(self.np_nditer, "np.nditer")
         sp = NS("scipy.fft", {n: FftFunc(n) for n in FFT_NAMES})
+
+        def sp_fast_len(kind):
+            def f(c, target, real=False):
+                c.note(f"stub:scipy.fft.{kind}_fast_len is an uninterpreted integer function (11-smooth lengths: not the statement's 7-smooth ones)")
+                fn = z3.Function(f"scipy_{kind}_fast_len", z3.IntSort(), z3.IntSort())
+                r = fn(V.Z(target))
+                c.assume(z3.And(r >= 0, (r <= V.Z(target)) if kind == "prev" else (r >= V.Z(target))), why=f"scipy.fft.{kind}_fast_len range")
+                return r
+            return f
+        sp.attrs["prev_fast_len"] = Stub(sp_fast_len("prev"), "scipy.fft.prev_fast_len")
+        sp.attrs["next_fast_len"] = Stub(sp_fast_len("next"), "scipy.fft.next_fast_len")
         self.ext["scipy.fft"] = sp
         self.ext["scipy"] = NS("scipy", {"fft": sp})
         da = self.ext["dask.array"]
@@ -179,6 +190,10 @@ class StubsFft(StubsLib):
         if not f.wrapped and x.backend == "dask":
             ctx.events.append(("force", f"scipy.fft.{f.name}(dask)"))
             x = SArr(x.shape, x.elem, x.dtype, "numpy")
+        if self.interp.truthy_sym(kwargs.pop("overwrite_x", False), ctx) is not False:
+            # scipy.fft may destroy the contents of x: an in-place write to the caller's array
+            ctx.note("stub:scipy.fft overwrite_x=True writes into its argument")
+            self.frame_write_arr(x, "scipy.fft overwrite_x", ctx)
         if f.name not in ("fft", "ifft"):
             return self.opaque_generic(ctx, f.name, x, args[1:], kwargs)
         rest = list(args[1:])
